@@ -32,8 +32,8 @@ def handle (j : Json) : R Json := do
     let cache ← cacheOf j
     let reader ← (j.getObjValAs? String "reader" <|> pure "bytes")
     if reader == "stream" then
-      match readStream b cache w with
-      | some ((p, _), s) => pure (Json.mkObj [("ok", Json.bool true), ("pose", poseToJson p), ("pulled", natJ s.pulled)])
+      match readSource b cache w with
+      | some (p, _, pulled) => pure (Json.mkObj [("ok", Json.bool true), ("pose", poseToJson p), ("pulled", natJ pulled)])
       | none => pure failJ
     else
       match readBytes b cache w with
